@@ -643,6 +643,7 @@ func TestC06(t *testing.T) {
 	for hi := 0; hi < nh; hi++ {
 		c06History(e, r, w, hi)
 	}
+	c06RouteMatrix(e, r, w)
 	w.Flush(t)
 }
 
